@@ -221,6 +221,8 @@ private:
   bool _parsing_attribute;
 
   bool _start_of_line;
+  bool _was_start_of_line;
+  bool _comment_is_trailing;
   int _unget;
 
   int _last_c;
